@@ -4,7 +4,7 @@
 From Coq Require Import List ZArith Bool.
 From WebpGen Require Tables Consts.
 From Webp Require Import Vp8.Vp8Bool Vp8.Vp8Tables Vp8.Vp8Syntax Vp8.Vp8Kernels Vp8.Vp8KernelProofs Vp8.Vp8Upsample
-  Vp8.Vp8BoolAbs Vp8.Vp8BoolEnc Vp8.Vp8SyntaxRT Vp8.Vp8TokenRT Vp8.Vp8ModeRT Vp8.Vp8Recon Vp8.Vp8Filter Vp8.Vp8Spec Vp8.Vp8FrameRT Vp8.Vp8RowOrder.
+  Vp8.Vp8BoolAbs Vp8.Vp8BoolEnc Vp8.Vp8SyntaxRT Vp8.Vp8TokenRT Vp8.Vp8ModeRT Vp8.Vp8Recon Vp8.Vp8Filter Vp8.Vp8Spec Vp8.Vp8FrameRT Vp8.Vp8RowOrder Vp8.Vp8GoReader Vp8.Vp8InlineCoeffs.
 From Webp Require Import Base.Res.
 Import ListNotations.
 Open Scope Z_scope.
@@ -135,6 +135,31 @@ Theorem C04_row_filter_order_eq : forall qk h simple rows cols above,
   filter_rows simple above (fst (fst (rows_syn qk h cols rows))).
 Proof. exact row_filter_order_eq. Qed.
 Print Assumptions C04_row_filter_order_eq.
+
+(** The Go bit reader as the inlined coefficient reader uses it (64-bit value register, Range = range-1,
+    bulk loads of 7 bytes / single bytes near the end, fastBit with the Log2Range / NewRange tables,
+    fastSigned): each read refines the exact-integer decoder that the RFC 6386 decoder refines too. *)
+Theorem C04_go_reader_bit_refines : forall g R D j p, grel g R D j -> 128 <= R <= 255 -> 0 <= p <= 255 -> 16 <= j ->
+  let '(b, (R2, D2, j2)) := aget p (R, D, j) in
+  exists g', gr_bit p g = (b, g') /\ grel g' R2 D2 j2 /\ 128 <= R2 <= 254 /\ j - 7 <= j2.
+Proof. exact gr_bit_refines. Qed.
+Print Assumptions C04_go_reader_bit_refines.
+
+(** getCoeffsInline as the code runs it (hoisted reader state, "if brB < 0 { brLoad }" before every
+    inlined read, unrolled value tree, kCat3456 loop with its terminator, prefetched bands[n+1]) =
+    the specification's token reader on the RFC decoder: same dequantised block, same end-of-block
+    position, readers again at the same stream position - for every probability table (bytes), block
+    type, start position, context, and every pair of reader states at the same position with at
+    least 357 further reads of look-ahead (16 + 7*357 bits, about 315 bytes; hence _partial: reader
+    states closer to the end of a partition are covered by the coef/coefs kernel cases and by whole
+    frames only). *)
+Theorem C04_inline_coeffs_eq_partial : forall tp first ctx dqdc dqac g d, tp_ok tp -> 0 <= first < 16 ->
+  both 357 g d ->
+  exists g' d', go_get_coeffs tp first ctx dqdc dqac g = (fst (fst (decode_block tp first ctx dqdc dqac d)),
+                                                          snd (fst (decode_block tp first ctx dqdc dqac d)), g') /\
+    snd (decode_block tp first ctx dqdc dqac d) = d' /\ both 0 g' d'.
+Proof. exact inline_coeffs_eq. Qed.
+Print Assumptions C04_inline_coeffs_eq_partial.
 
 (** ** Kernel refinements: the Go decoder's short-cuts against the full definitions *)
 
